@@ -139,10 +139,17 @@ def run(chk: Check):
                 multi = [c["faults"] for c in chk.run_model(fault_model(nvals, 4), simulate=f"num={20 if thorough else 5}", depth=6, seed=chk.seed + entry,
                                                             workers=2, label=f"faults: simulated multi-byte damage of {kind} entry {entry}").cases
                          if len(c["faults"]) > 1]
+                # the simulation emits one case per generated successor: keep distinct fault sets, in a seeded order
+                multi = sorted({json.dumps(m): m for m in multi}.values(), key=json.dumps)
+                random.Random(chk.seed + 17 + entry).shuffle(multi)
                 whole = [x for x in fs if sites[x[0][0] - 1].width > 1 or getattr(sites[x[0][0] - 1], "keep", False)]
                 if not thorough:
-                    fs = whole + fs[:: max(1, len(fs) // (70 if kind == "akai" else 40))]
+                    rest = [x for x in fs if x not in whole]
+                    random.Random(chk.seed + 18 + entry).shuffle(rest)
+                    fs = whole + rest[: (70 if kind == "akai" else 40)]
                     multi = multi[:25]
+                else:
+                    multi = multi[:600 if kind == "akai" else 150]
                 todo = fs + multi
 
                 def one(f, image=image, sites=sites, kind=kind):
